@@ -1,5 +1,7 @@
 import FpgoVerif.Props.C03
 /-! `#print axioms` for every property theorem of C03; parsed by `check`. -/
+#print axioms FpgoVerif.C03.C03_effects
+#print axioms FpgoVerif.C03.C03_effects_queries
 #print axioms FpgoVerif.C03.C03_map
 #print axioms FpgoVerif.C03.C03_mapIndexed
 #print axioms FpgoVerif.C03.C03_keys
